@@ -3,10 +3,10 @@ import json, os, re
 import core, gen
 from core import hx, unhx
 
-LEAN_MODULE = 'QM.Props.C05'
+LEAN_MODULE = 'QM.Props.C05Cmd'
 THEOREMS = ['P.C05_args_eq_systemd', 'P.C05_strv_eq_systemd', 'P.C05_no_word_dropped', 'P.C05_rendering_reads_back',
             'P.C05_empty_word_kept', 'P.C05_high_escape_boundary',
-            'P.implTbl_of_spec', 'P.implTbl_numeric', 'P.implSep_sound', 'P.implSep_complete']
+            'P.implTbl_of_spec', 'P.implTbl_numeric', 'P.implSep_sound', 'P.implSep_complete', 'Cv.C05_network_podman_args_reach_command', 'Cv.C05_network_podman_args_all']
 ASSUMPTIONS = [
     'P.Spec.extractFirst / decode specCfg transcribe systemd extract_first_word / cunescape_one at character level (DESIGN.md appendix A)',
     'Impl.word / Impl.strvWord are hand-written models of SplitWord::next / SplitStrv::next over the separator set and escape table extracted from split.rs; tied by the split_word / split_strv correspondence',
